@@ -67,7 +67,36 @@ def make_input(kind: str):
         return b[1:], b
     if kind == "tf4":
         return mg.tensor([1.0, 2.0, 3.0], dtype=np.float32), None
+    if kind == "bufarr":
+        import array
+
+        return array.array("d", [1.0, 2.0, 3.0]), None
+    if kind == "memview":
+        b = np.array([1.0, 2.0, 3.0])
+        return memoryview(b), b
+    if kind == "iface":
+        b = np.array([1.0, 2.0, 3.0])
+        return _Iface(b), b
     raise ValueError(kind)
+
+
+class _Iface:
+    """An object that is not an ndarray but exposes its memory through __array_interface__."""
+
+    def __init__(self, arr):
+        self._arr = arr
+        self.__array_interface__ = arr.__array_interface__
+
+
+def _probe(x):
+    """The memory of an input as an ndarray (None when it has none to share)."""
+    if isinstance(x, mg.Tensor):
+        return x.data
+    if isinstance(x, np.ndarray):
+        return x
+    if isinstance(x, (memoryview, _Iface)) or type(x).__module__ == "array":
+        return np.asarray(x)      # wraps the exposed memory, no copy
+    return None
 
 
 def _data(x):
@@ -77,7 +106,7 @@ def _data(x):
 def _observe(res, inp, expected):
     obs = {"raises": "none", "isinput": res is inp}
     d = _data(res)
-    src = _data(inp)
+    src = _probe(inp)
     obs["shares"] = bool(isinstance(src, np.ndarray) and np.shares_memory(d, src))
     obs["dtype"] = dtname(d.dtype)
     if isinstance(res, mg.Tensor):
@@ -97,7 +126,7 @@ def _observe(res, inp, expected):
 
 def _later_mutation_sees(res, inp) -> bool | None:
     """Later changes to the input are seen by the result iff they share memory (C17, first sentence)."""
-    src = _data(inp)
+    src = _probe(inp)
     if not isinstance(src, np.ndarray) or src.size == 0 or not src.flags.writeable:
         return None
     before = np.array(_data(res), copy=True)
